@@ -17,6 +17,7 @@ structure MFwd where
   pkt : Bytes          -- what the implementation placed in the slot
   client : Nat
   rq : Bytes           -- the client's packet it was made from
+  t : Nat := 0         -- when it was received
 
 /-- a reply the implementation accepted and queued -/
 structure MDel where
@@ -363,7 +364,9 @@ def monOp1 (m : Mon) (op : String) (args : List String) (impl : List String) (tr
                    "bad C11:identifier-0-used-by-a-request-while-status-server-is-enabled"
                  else if (fwdToks.any fun (_, sl, b') => (idOf b').toNat != sl) then "bad C11:packet-identifier-differs-from-its-slot"
                  else if (fwdToks.any fun (s', sl, _) => m.fwds.any fun f => f.srv = s' && f.slot = sl &&
-                            ((m.slots.find? (·.1 = s')).any fun e => e.2.any (·.1 = sl)) && !(f.client = k && idOf f.rq == idOf pkt)) then
+                            ((m.slots.find? (·.1 = s')).any fun e => e.2.any (·.1 = sl)) &&
+                            -- its own client may give it up: same identifier again, or older than DuplicateInterval (purged)
+                            !(f.client = k && (idOf f.rq == idOf pkt || m.now > f.t + cc.dup))) then
                    "bad C11:identifier-of-an-outstanding-request-reused"
                  else if !requestOk H sc.secret b then "bad C06:forwarded-request-malformed-or-unauthenticated"
                  else if codeOf b != codeOf pkt then "bad C01:code-changed"
@@ -377,7 +380,7 @@ def monOp1 (m : Mon) (op : String) (args : List String) (impl : List String) (tr
         let m := { m with fwdAt := (if fwdToks.isEmpty then m.fwdAt else (k, pkt, m.now) :: m.fwdAt.filter fun (j, p, _) => !(j = k && p == pkt)),
                           recv := (k, pkt) :: m.recv,
                           queue := m.queue ++ List.replicate ((ql.getD k 0) - (m.qlen.getD k 0)) (k, QEnt.loc pkt (m.recv.any fun (j, p) => j = k && p == pkt) trToks),
-                          fwds := (fwdToks.map fun (s, sl, b) => { srv := s, slot := sl, pkt := b, client := k, rq := pkt }) ++ m.fwds }
+                          fwds := (fwdToks.map fun (s, sl, b) => { srv := s, slot := sl, pkt := b, client := k, rq := pkt, t := m.now }) ++ m.fwds }
         (resync m out, verdict)
     | _, _ => (m, "bad-op")
   | "writer", [name] =>
